@@ -27,7 +27,7 @@ def enc(x):
     m, e = math.frexp(abs(x))            # abs(x) = m * 2^e, 0.5 <= m < 1 (or 0)
     M = int(m * (1 << 53))               # exact: m has at most 53 significant bits
     E = e - 53
-    assert M * 2.0 ** 0 >= 0 and (M == 0 or math.ldexp(M, E) == abs(x))
+    assert math.ldexp(M, E) == abs(x)
     while M and M % 2 == 0 and E < 0:    # keep powers small (only cosmetic)
         M //= 2
         E += 1
